@@ -136,7 +136,7 @@ PROPS = {
         "partial": ["slice-vs-io reader agreement and to_value/from_value are checked by the typed sub-harness on the implementation, not proved"],
     },
     "C06": {
-        "class_prefixes": ["c06-", "harness-crash"],
+        "class_prefixes": ["c06-", "harness-crash", "c07-fifo"],
         "subs": [
             {"name": "frame", "n_quick": 300, "n_thorough": 6000, "model": "coq/Frame/Transfer.v, coq/Lib/LengthDelimited.v",
              "rule": "xfer: random Transfer performatives (tags 0..32 bytes, every optional field) with payload lengths within +-40 of each "
@@ -144,6 +144,13 @@ PROPS = {
                      "through the real Transport; other: Open with 0..80 capabilities / Begin / Flow / Close incl. oversize; ldf: 1-4 frames "
                      "(valid, empty, too big, size<4, truncated) cut into 1-byte / small / large reads fed to the configured decoder; "
                      "rt: transfers sent through one Transport and read back through another with random cuts"},
+            {"name": "saslp", "n_quick": 60, "n_thorough": 400, "oracle": False,
+             "rule": "a pipelining client against the real listener (PLAIN): SASL header, init, AMQP header and open as ONE byte stream, written in pieces cut at every single "
+                     "offset, byte by byte, and at 2..5 random offsets; the result (accept ok, the frames the listener writes) must be the same as for the uncut stream: covers the "
+                     "protocol-header codec and the hand-over from the SASL codec to the AMQP codec"},
+            {"name": "c07", "n_quick": 1500, "n_thorough": 30000, "model": "coq/Session/Window.v",
+             "rule": "the session histories of C07: transfers held back by a closed window leave in the order in which they were submitted (continuation frames of one delivery "
+                     "stay in wire order), whatever the amount by which the window re-opens"},
         ],
         "rule": "a case is one frame send or one scripted read sequence run on the real Transport and on the extracted Coq model "
                 "(bytes compared); non-trivial = a transfer of >= 2 frames, any non-transfer frame, a multi-read sequence; distinct by case text",
@@ -191,6 +198,10 @@ PROPS = {
              "rule": "the sender scripts of C16 (real Sender against a scripted receiver; messages cut by the peer's max-message-size and by the frame size); here the clauses for "
                      "scripts WITHOUT cancellation: the transfers of one message form one delivery (one delivery-id, one tag, finished, nothing interleaved) and every delivery "
                      "takes exactly one credit however many transfers carry it"},
+            {"name": "chanre", "n_quick": 0, "n_thorough": 0, "oracle": False,
+             "rule": "50 fixed scripts against the real client: a second session is begun on the connection while the first is ending in each way a session can end (end, "
+                     "end_with_error, drop of the handle, the peer's end with and without error, with and without an attached link), before / after the peer's answer: a begin "
+                     "may be written on a channel only when the session that held it has written its end and received the peer's"},
         ],
         "rule": "a case is one operation history run on the real Session / Connection (facade) and on the extracted Coq model, every "
                 "result compared (handle / channel numbers, error kinds, which link or session received the routed frame); "
@@ -206,7 +217,7 @@ PROPS = {
         "partial": ["the link-level split is proved on its model; its correspondence with sender_link.rs is checked by the engine-level harness"],
     },
     "C12": {
-        "class_prefixes": ["c12-", "harness-crash"],
+        "class_prefixes": ["c12-", "harness-crash", "c15-wedged", "c15-silent-failure"],
         "subs": [
             {"name": "c12", "n_quick": 1200, "n_thorough": 20000, "model": "coq/Conn/Lifecycle.v",
              "rule": "scripts of 1..6 (thorough 1..9) events after a mostly sensible prefix (open;ph;po 60%, others 40%) over local "
@@ -219,6 +230,10 @@ PROPS = {
              "rule": "72 fixed cases: a sender writes 1..13 pre-settled messages of 10/100/700 bytes into a pipe of 64..1024 bytes that the peer does not read (frames "
                      "queue behind the blocked transport), the peer then writes a close and only then reads: the queued frames must be flushed before the answering "
                      "close, nothing may follow it and the handle reports the peer's close"},
+            {"name": "hostile", "n_quick": 300, "n_thorough": 3000, "oracle": False,
+             "rule": "the hostile-peer catalogue of C15 (client and listener side, every stimulus in every state it applies to); here: a frame that is illegal in the current state - "
+                     "a second begin on a mapped channel, an attach on a handle in use, frames for unmapped channels ... - must not be acted on silently: afterwards the "
+                     "connection either reports the error or still works (classes c15-wedged, c15-silent-failure)"},
         ],
         "rule": "a case is one script run against the real client ConnectionEngine over tokio::io::duplex (paused clock, one event per "
                 "barrier) and through the extracted Coq step function; compared per step: frames written (kind, close error condition), "
